@@ -48,6 +48,12 @@ impl Repr for std::net::IpAddr {
         format!("ip:{self}")
     }
 }
+impl<T: Repr, const N: usize> Repr for [T; N] {
+    fn repr(&self) -> String {
+        let v: Vec<String> = self.iter().map(|x| x.repr()).collect();
+        format!("[{};{}]", v.join(","), N)
+    }
+}
 impl Repr for () {
     fn repr(&self) -> String {
         "()".to_string()
